@@ -13,11 +13,13 @@
 (* conversions - the intended algorithm) the invariant must hold: this is    *)
 (* the design-level check that the documented order of checks implies the    *)
 (* property.  With WrapArith = TRUE (u64 wrapping multiplication, `as u32`   *)
-(* cast - what the code does at HEAD, see spec/onchain_switches.json) a      *)
-(* counterexample is a HYPOTHESIS about the code; leg B decides.             *)
+(* cast) or FlatWitness = TRUE (every input charged the witness of a P2WPKH  *)
+(* spend, also a taproot one) - whatever spec/onchain_switches.json says the *)
+(* code does at HEAD - a counterexample is a HYPOTHESIS about the code; leg  *)
+(* B decides.  The intended algorithm is WrapArith = FlatWitness = FALSE.    *)
 (***************************************************************************)
 EXTENDS OnchainGen
-CONSTANTS Tier, WrapArith, MaxSteps
+CONSTANTS Tier, WrapArith, FlatWitness, MaxSteps
 VARIABLES vel, acc, n, mode, last, part
 
 vars == <<vel, acc, n, mode, last, part>>
@@ -32,8 +34,9 @@ Apply(s) ==
   LET c  == Facts(s)
       v0 == IF s.jump THEN Big0 ELSE vel
       a0 == IF s.jump THEN Big0 ELSE acc
-      r  == Step(c, v0, WrapArith)
-      a2 == StepApprove(c, v0, WrapArith, s.approve) IN
+      sw == Sw(WrapArith, FlatWitness)
+      r  == Step(c, v0, sw)
+      a2 == StepApprove(c, v0, sw, s.approve) IN
   /\ vel' = r.vel
   /\ acc' = IF Judge(c, a0, r.v) # {} THEN a0 ELSE AccAfter(c, a0, r.v)   \* a violation is reported once
   /\ n' = n + 1
